@@ -16,10 +16,10 @@ TEXT = {
  "C11": ("model_checking", "crash images (copy of the backing store after every header update) opened by a second handle and validated by TLC against the writer's model state: parameters, whole-block frame count, prefix data; finished file identical to a twin without updates", "TraceCore (FileEffect/OpenWrittenOK image clauses)"),
  "C19": ("model_checking", "per-handle model states in TraceCore: interleaved multi-handle executions are explained only if every handle behaves as if alone; solo re-runs must give byte identical files; concurrent readers share the content map", "TraceCore multi-handle validation"),
  "C14": ("model_checking", "route independence: same content through vio/fd/path/embedded/pipe validated against one content map; byte identity across write routes; descriptor closed iff close_desc (CloseOK)", "TraceCore validation across routes"),
- "C15": ("fault_enumeration", "complete enumeration of fault points x kinds x persistence for representative workloads, each execution validated by TLC with the widened (relax) outcome sets of SfHandle; watchdog for non-returning calls; ledger at scenario end", "fault enumeration + TraceCore (relax clauses)"),
+ "C15": ("model_checking", "complete enumeration of fault points x kinds x persistence for representative workloads, each execution validated by TLC with the widened (relax) outcome sets of SfHandle; watchdog for non-returning calls; ledger at scenario end", "fault enumeration + TraceCore (relax clauses)"),
  "C16": ("model_checking", "ledger clauses EndOK / OpenFailedOK evaluated by TLC on every scenario: heap (ASan allocator statistics), descriptors, temp files; dedicated sweep of opens failing at each parse depth", "TraceCore ledger clauses"),
  "C02": ("model_checking", "the conversion rules as exact arithmetic in TLA+ (SfConv: MSB rule, offset 128, value/2^(w-1), nearest integer to x*(2^(w-1)-1) with the float-precision product, saturation) evaluated by TLC on recorded (input, output) pairs: all 65536 shorts and all 8/16 bit codes exhaustively, sampled 24/32 bit codes, the full 8/16 bit float target grids; identities model-checked in MC_conv", "TraceConv (SfConv rules) + MC_conv"),
- "C03": ("exploration", "structure-aware mutation of valid files of every format, each execution validated by TLC in the hostile class of TraceCore (NULL+error or sane SF_INFO; counts, positions, guard bands; every call returns; ledger), memory errors observed by ASan; sampling of the input space, not a proof about the parsers", "mutation corpus + TraceCore hostile-class validation"),
+ "C03": ("model_checking", "structure-aware mutation of valid files of every format, each execution validated by TLC in the hostile class of TraceCore (NULL+error or sane SF_INFO; counts, positions, guard bands; every call returns; ledger), memory errors observed by ASan; sampling of the input space, not a proof about the parsers", "mutation corpus + TraceCore hostile-class validation"),
  "C10": ("model_checking", "the agreement predicate Consistent (sf_format_check = sf_open(SFM_WRITE) outcome, accepted tuples write through 4 types, close, re-open as the same format; rejected ones fail with an error) and the enumeration soundness clauses evaluated by TLC on the complete grid (thorough) / a sub-grid reaching every rule (quick)", "TraceFormat over the complete format grid"),
  "C12": ("model_checking", "Get(Reopen(Set v)) = Norm(v) decided by TLC (GetMetaOK: support matrix, software suffix, CR/LF normalisation, appended history line, per-container representable fields) for strings, bext, cart, cues, instrument, channel map over lengths up to the limits and several orders", "TraceCore metadata clauses"),
  "C13": ("model_checking", "chunk table model (MC_chunks: used <= capacity through every growth step, iterator visits once) and trace validation of set/iterate/get on WAV, WAVEX, RF64, AIFF, CAF with counts crossing every capacity step; hook reports used/capacity; guard bands and ASan", "MC_chunks + TraceCore chunk clauses"),
